@@ -150,6 +150,10 @@ def _only_value_objects_before(whole: ast.expr, load: ast.Name, moved: ast.expr)
         return any(mark(c, chain + [n]) for c in ast.iter_child_nodes(n))
     if not mark(whole, []):
         return False
+    # a helper object stays a named local: `h = Helper(x); return C(h.items())` is not turned into `Helper(x).items()`
+    for c in ast.walk(whole):
+        if isinstance(c, ast.Call) and isinstance(c.func, ast.Attribute) and c.func.value is load:
+            return False
     moved_names = {x.id for x in ast.walk(moved) if isinstance(x, ast.Name)}
     pos = (getattr(load, 'lineno', 0), getattr(load, 'col_offset', 0))
     for c in ast.walk(whole):
@@ -481,6 +485,7 @@ class Program:
                     if isinstance(stmt, ast.Assign) and len(stmt.targets) == 1 and isinstance(stmt.targets[0], ast.Name):
                         cls.enum_members[stmt.targets[0].id] = stmt.value
         self._inline_expression_helpers()
+        self._expand_keyword_helpers()
         self._inline_void_procedures()
         self._unroll_literal_iterations()
         self._inline_expression_helpers(max_rounds=1)      # helpers that became single expressions by unrolling
@@ -701,6 +706,184 @@ class Program:
                                 for n_ in list(fi.nested.values()):
                                     forget(n_)
                             forget(nf)
+
+    # -- N19 / N20 ------------------------------------------------------------------------------------------------------------
+    def _expand_keyword_helpers(self):
+        """N19  `C(**h(a, b), k=v)` / `d = h(a, b)` where h is a function of the same module whose body is a straight line
+                 `x = ..; y = ..; return {'k1': E1, 'k2': E2}` (constant keys): the assignments of h (locals renamed apart,
+                 parameters replaced by the side-effect free arguments) move in front of the statement, every entry that is not
+                 a plain name gets a local of its own, and the call becomes `C(k1=.., k2=.., k=v)` / `d = {...}`.
+           N20  a local `d = {'k1': n1, 'k2': n2}` of plain names that is never changed and only read as `d['k1']` or `**d`:
+                 those reads become `n1` / `k1=n1, k2=n2`, the dictionary goes.
+        "The fields every declaration has in common come from one helper" then reads like the constructor calls it replaced."""
+        import copy
+        import itertools
+        counter = itertools.count(1)
+
+        def pure(e) -> bool:
+            return all(isinstance(x, (ast.Name, ast.Attribute, ast.Constant, ast.expr_context)) for x in ast.walk(e))
+
+        def dict_helper(caller: FuncInfo, call: ast.expr):
+            if not (isinstance(call, ast.Call) and isinstance(call.func, ast.Name) and not call.keywords and
+                    all(pure(a) and not isinstance(a, ast.Starred) for a in call.args)):
+                return None
+            h = self.resolve_name(caller.module, call.func.id)
+            if not (isinstance(h, FuncInfo) and h.module is caller.module and h.cls is None and h.parent is None and h is not caller):
+                return None
+            a = h.node.args
+            if a.vararg or a.kwarg or a.kwonlyargs or a.defaults or len(a.posonlyargs) + len(a.args) != len(call.args):
+                return None
+            body = [st for st in h.node.body if not (isinstance(st, ast.Expr) and isinstance(st.value, ast.Constant))]
+            if not body or not isinstance(body[-1], ast.Return) or not isinstance(body[-1].value, ast.Dict):
+                return None
+            d = body[-1].value
+            if not d.keys or not all(isinstance(k, ast.Constant) and isinstance(k.value, str) and k.value.isidentifier() for k in d.keys):
+                return None
+            for st in body[:-1]:
+                if not (isinstance(st, ast.Assign) and len(st.targets) == 1 and isinstance(st.targets[0], ast.Name)):
+                    return None
+            if any(isinstance(x, (ast.Lambda, ast.Yield, ast.YieldFrom, ast.NamedExpr)) for x in ast.walk(h.node)):
+                return None
+            params = [p_.arg for p_ in list(a.posonlyargs) + list(a.args)]
+            stored = {x.id for x in ast.walk(h.node) if isinstance(x, ast.Name) and isinstance(x.ctx, ast.Store)}
+            if stored & set(params):
+                return None
+            tag = f'__h{next(counter)}'
+            binding = dict(zip(params, call.args))
+
+            class Sub(ast.NodeTransformer):
+                def visit_Name(s_, node):
+                    if node.id in stored:
+                        return ast.copy_location(ast.Name(id=node.id + tag, ctx=node.ctx), node)
+                    if node.id in binding and isinstance(node.ctx, ast.Load):
+                        return copy.deepcopy(binding[node.id])
+                    return node
+            pre = [Sub().visit(copy.deepcopy(st)) for st in body[:-1]]
+            entries = []
+            for k, v in zip(d.keys, d.values):
+                v2 = Sub().visit(copy.deepcopy(v))
+                if not isinstance(v2, (ast.Name, ast.Constant)):
+                    nm = f'{k.value}{tag}'
+                    pre.append(ast.Assign(targets=[ast.Name(id=nm, ctx=ast.Store())], value=v2))
+                    v2 = ast.Name(id=nm, ctx=ast.Load())
+                entries.append((k.value, v2))
+            for st in pre:
+                for x in ast.walk(st):
+                    if isinstance(x, (ast.expr, ast.stmt)):
+                        ast.copy_location(x, call)
+                ast.fix_missing_locations(st)
+            return h, pre, entries
+
+        changed_fns = []
+        for caller in list(self.functions.values()):
+            blocks = []
+            for n in ast.walk(caller.node):
+                for fld in ('body', 'orelse', 'finalbody'):
+                    blk = getattr(n, fld, None)
+                    if isinstance(blk, list) and blk and isinstance(blk[0], ast.stmt):
+                        blocks.append(blk)
+                if isinstance(n, ast.Try):
+                    blocks.extend(h_.body for h_ in n.handlers)
+            touched = False
+            for blk in blocks:
+                i = 0
+                while i < len(blk):
+                    st = blk[i]
+                    top = st.value if isinstance(st, (ast.Return, ast.Assign, ast.Expr)) and getattr(st, 'value', None) is not None else None
+                    done = False
+                    # d = h(...)
+                    if isinstance(st, ast.Assign) and len(st.targets) == 1 and isinstance(st.targets[0], ast.Name):
+                        r = dict_helper(caller, top)
+                        if r is not None:
+                            h, pre, entries = r
+                            st.value = ast.copy_location(ast.Dict(keys=[ast.Constant(value=k) for k, _v in entries],
+                                                                  values=[v for _k, v in entries]), top)
+                            ast.fix_missing_locations(st)
+                            blk[i:i] = pre
+                            i += len(pre)
+                            self.inlined.append((caller.fq, h.fq))
+                            touched = done = True
+                    # C(**h(...), k=v): the ** entry is the first thing the call evaluates after plain names
+                    if not done and isinstance(top, ast.Call) and not top.args or (
+                            not done and isinstance(top, ast.Call) and all(pure(a_) for a_ in top.args)):
+                        for ki, kw in enumerate(top.keywords):
+                            if kw.arg is None:
+                                if not all(pure(k2.value) for k2 in top.keywords[:ki]):
+                                    break
+                                r = dict_helper(caller, kw.value)
+                                if r is None:
+                                    break
+                                h, pre, entries = r
+                                if {k for k, _v in entries} & {k2.arg for k2 in top.keywords if k2.arg}:
+                                    break
+                                top.keywords[ki:ki + 1] = [ast.keyword(arg=k, value=v) for k, v in entries]
+                                ast.fix_missing_locations(st)
+                                blk[i:i] = pre
+                                i += len(pre)
+                                self.inlined.append((caller.fq, h.fq))
+                                touched = True
+                                break
+                    i += 1
+            # N20
+            defs = [(blk, st) for blk in blocks for st in blk if isinstance(st, ast.Assign) and len(st.targets) == 1 and
+                    isinstance(st.targets[0], ast.Name) and isinstance(st.value, ast.Dict) and st.value.keys and
+                    all(isinstance(k, ast.Constant) and isinstance(k.value, str) and k.value.isidentifier() for k in st.value.keys) and
+                    all(isinstance(v, (ast.Name, ast.Constant)) for v in st.value.values)]
+            for blk, st in defs:
+                nm = st.targets[0].id
+                occ = [x for x in ast.walk(caller.node) if isinstance(x, ast.Name) and x.id == nm]
+                if sum(isinstance(x.ctx, ast.Store) for x in occ) != 1:
+                    continue
+                vals = dict(zip([k.value for k in st.value.keys], st.value.values))
+                val_names = {v.id for v in vals.values() if isinstance(v, ast.Name)}
+                # the names the dictionary holds are not re-bound afterwards (write-once locals / parameters)
+                if any(sum(1 for x in ast.walk(caller.node) if isinstance(x, ast.Name) and x.id == vn and isinstance(x.ctx, ast.Store)) > 1
+                       for vn in val_names):
+                    continue
+                parents = {id(c_): p_ for p_ in ast.walk(caller.node) for c_ in ast.iter_child_nodes(p_)}
+                ok = True
+                uses = [x for x in occ if isinstance(x.ctx, ast.Load)]
+                for u in uses:
+                    p_ = parents.get(id(u))
+                    if isinstance(p_, ast.Subscript) and p_.value is u and isinstance(p_.ctx, ast.Load) and \
+                            isinstance(p_.slice, ast.Constant) and p_.slice.value in vals:
+                        continue
+                    if isinstance(p_, ast.keyword) and p_.arg is None and p_.value is u:
+                        c_ = parents.get(id(p_))
+                        if isinstance(c_, ast.Call) and not ({k2.arg for k2 in c_.keywords if k2.arg} & set(vals)):
+                            continue
+                    ok = False
+                if not ok or not uses:
+                    continue
+                for u in uses:
+                    p_ = parents.get(id(u))
+                    if isinstance(p_, ast.Subscript):
+                        gp = parents.get(id(p_))
+                        new = copy.deepcopy(vals[p_.slice.value])
+                        ast.copy_location(new, p_)
+                        for fld, val in ast.iter_fields(gp):
+                            if val is p_:
+                                setattr(gp, fld, new)
+                            elif isinstance(val, list):
+                                for k_, item in enumerate(val):
+                                    if item is p_:
+                                        val[k_] = new
+                    else:
+                        c_ = parents.get(id(p_))
+                        idx = c_.keywords.index(p_)
+                        c_.keywords[idx:idx + 1] = [ast.keyword(arg=k, value=copy.deepcopy(v)) for k, v in vals.items()]
+                        ast.fix_missing_locations(c_)
+                blk.remove(st)
+                touched = True
+            if touched:
+                changed_fns.append(caller)
+        for f in changed_fns:
+            normalise_tree(f.node)
+        if changed_fns:
+            for mod in self.modules.values():
+                for node in ast.walk(mod.tree):
+                    for child in ast.iter_child_nodes(node):
+                        self._parents[id(child)] = node
 
     # -- N11 --------------------------------------------------------------------------------------------------------------
     def _inline_void_procedures(self):
